@@ -1,5 +1,6 @@
 """Check runner: proof jobs in a process pool, replay of counterexamples on the real code,
 bounded stand-ins, known findings, evidence, VIOLATION lines."""
+import fnmatch
 import hashlib
 import importlib
 import json
@@ -124,7 +125,7 @@ def match_known(pid, key, known):
     for e in known:
         if e.get('kind') == 'finding' and e.get('property') == pid:
             pat = e.get('key')
-            if pat == key or (pat.endswith('*') and key.startswith(pat[:-1])):
+            if pat == key or fnmatch.fnmatchcase(key, pat.replace('[', '[[]')):
                 return e
     return None
 
@@ -150,6 +151,7 @@ def check_property(pid, spec, tier='quick', seed=0, procs=None, write_baseline=F
     assumptions = set()
     samples = []
     discharged_keys = []
+    covers_reached = []
     solver_s = 0.0
     os.makedirs(os.path.join(VERIF, 'replays', pid), exist_ok=True)
     for rep in reports:
@@ -166,8 +168,15 @@ def check_property(pid, spec, tier='quick', seed=0, procs=None, write_baseline=F
             fn['out_of_reach'].append(u)
             undecided.append({'key': '%s::%s' % (rep['target'], rep['label']), 'why': 'engine: ' + u})
         for k, ok in rep['covers'].items():
-            if not ok and not rep['unsupported'] and not rep['errors']:
-                broken.append('vacuity: expected outcome %s of %s never reached' % (k, rep['target']))
+            ckey = '%s::%s' % (rep['target'], k)
+            if ok:
+                covers_reached.append(ckey)
+            elif not rep['unsupported'] and not rep['errors']:
+                if baseline is not None and ckey in baseline.get('covers', []):
+                    # reachable on the baseline tree, unreachable now: the code changed; the contract's cases no longer fit it
+                    undecided.append({'key': ckey, 'why': 'expected outcome no longer reachable (was reachable on the baseline tree)'})
+                else:
+                    broken.append('vacuity: expected outcome %s of %s never reached' % (k, rep['target']))
         if not rep['results'] and not rep['unsupported'] and not rep['errors']:
             broken.append('vacuity: no obligations generated for %s[%s]' % (rep['target'], rep['label']))
         for r in rep['results']:
@@ -248,7 +257,7 @@ def check_property(pid, spec, tier='quick', seed=0, procs=None, write_baseline=F
     if write_baseline:
         os.makedirs(os.path.join(VERIF, 'contracts', 'baseline'), exist_ok=True)
         with open(os.path.join(VERIF, 'contracts', 'baseline', pid + '.json'), 'w') as f:
-            json.dump({'property': pid, 'discharged': sorted(set(discharged_keys))}, f, indent=0)
+            json.dump({'property': pid, 'discharged': sorted(set(discharged_keys)), 'covers': sorted(set(covers_reached))}, f, indent=0)
     # verdict
     seen_kf = set()
     for kf, item in known_hits:
